@@ -16,15 +16,29 @@ Definition W_run (fuel : nat) (w : writer comp) (ops : list wop) :=
 Definition W_new (sync : bool) (level : Z) (win4k : bool) (fail : option N) : writer comp :=
   mkw comp (comp_new sync level win4k fail) ENone.
 
+(* ---------- C12: Reset gives exactly the state of a new writer ---------- *)
+(* reachable states: any operations from a new writer, with any destination fault, any Resets *)
+Inductive reachable (sync : bool) (level : Z) (win4k : bool) : writer comp -> Prop :=
+| R_new fail : reachable sync level win4k (W_new sync level win4k fail)
+| R_write w fuel d w' n e : reachable sync level win4k w -> W_write fuel w d = Some (w', n, e) -> reachable sync level win4k w'
+| R_flush w : reachable sync level win4k w -> reachable sync level win4k (fst (W_flush w))
+| R_close w : reachable sync level win4k w -> reachable sync level win4k (fst (W_close w))
+| R_reset w fail : reachable sync level win4k w -> reachable sync level win4k (W_reset fail w).
+
 (* ---------- C09: Write (a ++ b) = Write a; Write b, and Write [] does nothing ---------- *)
 (* with enough fuel for the loop of Writer.Write (one iteration per buffer fill; S (length d)
    always suffices, see write_fuel_statement) the final writer is the same, the byte counts add
    up and an error is returned by the one call iff it is returned by one of the two *)
+(* (both statements hold for the states a history can reach; for arbitrary records they were
+   refuted in Coq — e.g. a Huffman-only buffer already longer than its capacity makes the loop of
+   Writer.Write spin — see the comment at the top of proofs/WriterStateProofs.v) *)
 Definition write_fuel_statement : Prop :=
-  forall (w : writer comp) d fuel, (length d < fuel)%nat -> W_write fuel w d <> None.
+  forall sync level win4k (w : writer comp) d fuel, reachable sync level win4k w ->
+    (length d < fuel)%nat -> W_write fuel w d <> None.
 
 Definition write_split_statement : Prop :=
-  forall (w : writer comp) a b fuel, (length a + length b < fuel)%nat ->
+  forall sync level win4k (w : writer comp) a b fuel, reachable sync level win4k w ->
+    (length a + length b < fuel)%nat ->
     match W_write fuel w (a ++ b), W_write fuel w a with
     | Some (w12, n12, e12), Some (w1, n1, e1) =>
       match W_write fuel w1 b with
@@ -37,15 +51,6 @@ Definition write_split_statement : Prop :=
 
 Definition write_empty_statement : Prop :=
   forall (w : writer comp) fuel, we comp w = ENone -> W_write fuel w [] = Some (w, 0%nat, false).
-
-(* ---------- C12: Reset gives exactly the state of a new writer ---------- *)
-(* reachable states: any operations from a new writer, with any destination fault, any Resets *)
-Inductive reachable (sync : bool) (level : Z) (win4k : bool) : writer comp -> Prop :=
-| R_new fail : reachable sync level win4k (W_new sync level win4k fail)
-| R_write w fuel d w' n e : reachable sync level win4k w -> W_write fuel w d = Some (w', n, e) -> reachable sync level win4k w'
-| R_flush w : reachable sync level win4k w -> reachable sync level win4k (fst (W_flush w))
-| R_close w : reachable sync level win4k w -> reachable sync level win4k (fst (W_close w))
-| R_reset w fail : reachable sync level win4k w -> reachable sync level win4k (W_reset fail w).
 
 Definition reset_is_new_statement : Prop :=
   forall sync level win4k w fail, reachable sync level win4k w ->
